@@ -56,6 +56,44 @@ func customName(t reflect.Type) (string, bool) {
 	return "", false
 }
 
+// privateResults: the maps an extraction returns belong to the caller. They are emptied and filled with junk
+// here (working copies are taken first); a second extraction from the same witness must return what the first did.
+func privateResults(w interface{}, tm map[string]reflect.Type, nm map[string]string) string {
+	tmCopy, nmCopy := copyTypeMap(tm), copyNameMap(nm)
+	for k := range tm {
+		delete(tm, k)
+	}
+	for k := range nm {
+		delete(nm, k)
+	}
+	tm["verif.Junk"], nm["verif.Junk"] = reflect.TypeOf(0), "junk"
+	var tm2 map[string]reflect.Type
+	var nm2 map[string]string
+	if p := core.Catch(func() { tm2, nm2 = hessian.ExtractTypeNameMap(w) }); p != "" {
+		return "second extraction panics: " + p
+	}
+	same := len(tm2) == len(tmCopy) && len(nm2) == len(nmCopy)
+	for k, v := range tmCopy {
+		same = same && tm2[k] == v
+	}
+	for k, v := range nmCopy {
+		same = same && nm2[k] == v
+	}
+	// hand the caller its content back
+	delete(tm, "verif.Junk")
+	delete(nm, "verif.Junk")
+	for k, v := range tmCopy {
+		tm[k] = v
+	}
+	for k, v := range nmCopy {
+		nm[k] = v
+	}
+	if !same {
+		return "a second extraction from the same witness returns other maps after the caller changed the first result (results are shared between calls)"
+	}
+	return ""
+}
+
 // closureCheck verifies that the maps are closed and consistent for type t.
 func closureCheck(t reflect.Type, tm map[string]reflect.Type, nm map[string]string) string {
 	structs, slices := staticClosure(t)
@@ -161,6 +199,10 @@ func init() {
 							rep("closure", kind, r)
 							continue
 						}
+						if r := privateResults(w.v, tm, nm); r != "" {
+							rep("extract", "shared-result", r)
+							continue
+						}
 						structs, _ := staticClosure(t.Type)
 						for _, s := range structs {
 							cn, has := customName(s)
@@ -228,7 +270,24 @@ func init() {
 					wits   []interface{}
 					others []interface{}
 				}
+				selfList := func() interface{} {
+					l := make([]interface{}, 2)
+					l[0], l[1] = int32(1), l
+					return &zoo.SlAny{L: l, End: 1}
+				}
+				selfMap := func() interface{} {
+					m := map[interface{}]interface{}{"k": int32(1)}
+					m["self"] = m
+					return &zoo.MpAny{M: m, End: 1}
+				}
+				listMapList := func() interface{} {
+					l := make([]interface{}, 1)
+					l[0] = map[string]interface{}{"back": l, "in": &zoo.Inner{A: 1}}
+					return &zoo.SlAny{L: l, End: 1}
+				}
 				sps := []sp{
+					{"untyped containers that contain themselves", reflect.TypeOf(zoo.SlAny{}), []interface{}{selfList(), listMapList()}, []interface{}{&zoo.SlAny{L: []interface{}{int32(1)}, End: 2}}},
+					{"untyped map that contains itself", reflect.TypeOf(zoo.MpAny{}), []interface{}{selfMap()}, []interface{}{&zoo.MpAny{M: map[interface{}]interface{}{"k": int32(1)}, End: 2}}},
 					{"chain of 80 struct types", reflect.TypeOf(zoo.Ch00{}), []interface{}{zoo.Ch00{}, &zoo.Ch00{}, chainFull()}, []interface{}{chainFull(), &zoo.Ch00{V: 1}}},
 					{"interior pointers", reflect.TypeOf(zoo.Interior{}), []interface{}{zoo.Interior{}, interior(0), interior(1), interior(2), interior(3)}, []interface{}{interior(0), interior(1), interior(2), interior(3)}},
 				}
@@ -253,6 +312,10 @@ func init() {
 						}
 						if r := closureCheck(s.typ, tm, nm); r != "" {
 							rep("closure", "not-closed", r)
+							continue
+						}
+						if r := privateResults(w, tm, nm); r != "" {
+							rep("extract", "shared-result", r)
 							continue
 						}
 						structs, _ := staticClosure(s.typ)
